@@ -12,6 +12,7 @@ DEDUCTIVE = [
     {'fid': 'odml/validation.py::section_properties_cardinality', 'mode': 'heap'},
     {'fid': 'odml/validation.py::section_sections_cardinality', 'mode': 'heap'},
     {'fid': 'odml/validation.py::property_values_cardinality', 'mode': 'heap'},
+    {'fid': 'odml/validation.py::Validation.error', 'mode': 'heap'},
     {'fid': 'odml/section.py::BaseSection.sec_cardinality.setter', 'mode': 'heap'},
     {'fid': 'odml/section.py::BaseSection.prop_cardinality.setter', 'mode': 'heap'},
     {'fid': 'odml/property.py::BaseProperty.val_cardinality.setter', 'mode': 'heap'},
@@ -33,5 +34,9 @@ def bounded_jobs(tier, seed):
         pure('odml/tools/dict_parser.py::parse_cardinality', 'contracts.c_parsers', 'gen_dict_card'),
         pure('odml/tools/dict_parser.py::parse_cardinality#roundtrip', 'contracts.c_parsers', 'gen_dict_card_roundtrip'),
         {'name': 'b_values.run_cardinality', 'module': 'rcc.b_values', 'func': 'run_cardinality',
+         'kwargs': {'tier': tier, 'seed': seed}},
+        # whole validation runs (traversal + collector): a cardinality warning is reported for every violating
+        # object, also when equal content occurs at several places or the object carries a resolved link
+        {'name': 'b_C08.run_rules', 'module': 'rcc.b_C08', 'func': 'run_rules',
          'kwargs': {'tier': tier, 'seed': seed}},
     ]
